@@ -507,6 +507,12 @@ class ChildSeams:
         real_time, real_mono = _time.time, _time.monotonic
         _time.time = lambda: S.clock
         _time.time_ns = lambda: int(S.clock * 1e9)
+        # the no-argument forms of the struct_time / formatting functions read the real clock in C
+        o_local, o_gm, o_strf, o_ctime = _time.localtime, _time.gmtime, _time.strftime, _time.ctime
+        _time.localtime = lambda secs=None: o_local(S.clock if secs is None else secs)
+        _time.gmtime = lambda secs=None: o_gm(S.clock if secs is None else secs)
+        _time.strftime = lambda fmt, t=None: o_strf(fmt, o_local(S.clock) if t is None else t)
+        _time.ctime = lambda secs=None: o_ctime(S.clock if secs is None else secs)
         install_datetime_seam(lambda: S.clock)
         # names bound by "from time import time" in scriptplan modules
         for mn, mod in list(sys.modules.items()):
